@@ -5,6 +5,9 @@ mod c03;
 mod c04;
 mod c05;
 mod c06;
+mod c15;
+mod c16;
+mod c19;
 mod history;
 mod hooks;
 mod store;
@@ -23,6 +26,9 @@ fn main() {
         "C04" => c04::run(&args, &mut rep),
         "C05" => c05::run(&args, &mut rep),
         "C06" => c06::run(&args, &mut rep),
+        "C15" => c15::run(&args, &mut rep),
+        "C16" => c16::run(&args, &mut rep),
+        "C19" => c19::run(&args, &mut rep),
         p => rep.inconclusive(format!("vp-store does not serve {p}")),
     }
     if hooks::pause_timeouts() > 0 {
